@@ -811,6 +811,38 @@ func (o *httpObs) c02js() {
 	}
 }
 
+// queryPage: one POST /query; the relations as "start|pred>other" -> count, and the continuation tokens of the answer.
+func (o *httpObs) queryPage(q map[string]interface{}) (got map[string]int, conts []string, ok bool) {
+	h := o.h
+	got = map[string]int{}
+	b, _ := json.Marshal(q)
+	code, body, pn := o.w.request(http.MethodPost, "/query", string(b))
+	if pn != "" || code != 200 {
+		return got, nil, false
+	}
+	var res []json.RawMessage
+	if err := json.Unmarshal(body, &res); err != nil || len(res) < 2 {
+		return got, nil, false
+	}
+	var rels [][]json.RawMessage
+	_ = json.Unmarshal(res[1], &rels)
+	for _, r := range rels {
+		if len(r) != 3 {
+			continue
+		}
+		var st, p string
+		_ = json.Unmarshal(r[0], &st)
+		_ = json.Unmarshal(r[1], &p)
+		e := &server.Entity{}
+		_ = json.Unmarshal(r[2], e)
+		got[h.AbsID(st)+"|"+h.AbsKey(p)+">"+h.AbsID(e.ID)]++
+	}
+	if len(res) > 2 {
+		_ = json.Unmarshal(res[2], &conts)
+	}
+	return got, conts, true
+}
+
 func httpStoreReplay(task engine.SeqTask) (res engine.SeqResult) {
 	var p server.StoreParams
 	_ = json.Unmarshal(task.Params, &p)
@@ -828,6 +860,14 @@ func httpStoreReplay(task engine.SeqTask) (res engine.SeqResult) {
 		return
 	}
 	o := &httpObs{w: w, h: h}
+	// a client that started a paged POST /query with several starting entities (limit 1) and fetches the remaining
+	// pages after later writes (ops qstart / qcont): the continuation tokens pin the instant
+	var pq struct {
+		conts []string
+		label string
+		got   map[string]int
+		want  map[string]bool
+	}
 	for i, raw := range task.Hist {
 		var op server.VOp
 		if err := json.Unmarshal(raw, &op); err != nil {
@@ -836,6 +876,82 @@ func httpStoreReplay(task engine.SeqTask) (res engine.SeqResult) {
 		}
 		if i == len(task.Hist)-1 {
 			o.last = op.String()
+		}
+		if op.K == "qstart" {
+			starts, pred := []string{"e1", "e2", "e3"}, "*"
+			if op.LO {
+				starts, pred = []string{"e2", "e3"}, "p"
+			}
+			q := map[string]interface{}{"inverse": op.LO, "limit": 1}
+			var su []string
+			for _, s := range starts {
+				su = append(su, h.URI(s))
+			}
+			q["startingEntities"] = su
+			if pred == "*" {
+				q["predicate"] = "*"
+			} else {
+				q["predicate"] = h.KeyURI(pred)
+			}
+			got, conts, ok := o.queryPage(q)
+			if !ok || len(conts) == 0 {
+				res.Skip, res.Key = true, "skip"
+				return
+			}
+			pq.conts, pq.got = conts, got
+			pq.label = fmt.Sprintf("%v/%s/inverse=%v started after operation %d", starts, pred, op.LO, i)
+			pq.want = map[string]bool{}
+			for e := range h.M.Graph(nil, -1) {
+				for _, s := range starts {
+					if !op.LO && e.Src == s {
+						pq.want[s+"|"+e.Pred+">"+e.Dst] = true
+					}
+					if op.LO && e.Dst == s && e.Pred == "p" {
+						pq.want[s+"|"+e.Pred+">"+e.Src] = true
+					}
+				}
+			}
+			continue
+		}
+		if op.K == "qcont" {
+			if pq.conts == nil {
+				res.Skip, res.Key = true, "skip"
+				return
+			}
+			for n := 0; len(pq.conts) > 0 && n < 60; n++ {
+				g, conts, ok := o.queryPage(map[string]interface{}{"continuations": pq.conts, "limit": 1})
+				if !ok {
+					o.fail("C06:http:continued-query-error", "continuing a paged POST /query failed")
+					break
+				}
+				for k, c := range g {
+					pq.got[k] += c
+				}
+				pq.conts = conts
+			}
+			if i == len(task.Hist)-1 {
+				o.n++
+				same := len(pq.got) == len(pq.want)
+				for k, c := range pq.got {
+					if !pq.want[k] || c != 1 {
+						same = false
+					}
+				}
+				if !same {
+					var gl, wl []string
+					for k, c := range pq.got {
+						gl = append(gl, fmt.Sprintf("%s x%d", k, c))
+					}
+					for k := range pq.want {
+						wl = append(wl, k)
+					}
+					sort.Strings(gl)
+					sort.Strings(wl)
+					o.fail("C06:http:continued-current-state-query", fmt.Sprintf("a paged POST /query (%s, limit 1) continued after later writes returned %v in total; when it was started the graph gave %v", pq.label, gl, wl))
+				}
+			}
+			pq.conts, pq.got, pq.want = nil, nil, nil
+			continue
 		}
 		if op.K == "badbatch" || op.K == "badtxn" {
 			if err := h.ApplyRefused(op); err != nil {
@@ -863,7 +979,20 @@ func httpStoreReplay(task engine.SeqTask) (res engine.SeqResult) {
 			o.c03js(p.IDs)
 		}
 	}
-	res.Key = h.Canon(append(append([]string{}, p.IDs...), "e4"), p.Datasets, "")
+	extra := ""
+	if pq.conts != nil {
+		var gl, wl []string
+		for k := range pq.got {
+			gl = append(gl, k)
+		}
+		for k := range pq.want {
+			wl = append(wl, k)
+		}
+		sort.Strings(gl)
+		sort.Strings(wl)
+		extra = fmt.Sprintf("|pending-query:%s:got=%v:want=%v", pq.label[:strings.Index(pq.label, " started")], gl, wl)
+	}
+	res.Key = h.Canon(append(append([]string{}, p.IDs...), "e4"), p.Datasets, extra)
 	res.Viol = o.viol
 	res.Checks = o.n
 	res.Outcome = res.Key[:8]
